@@ -173,9 +173,7 @@ func (r *Reader) Messages(
 		r.detachLexer()
 	}
 	if options.UseIndex {
-		if rs, ok := r.r.(io.ReadSeeker); ok {
-			r.rs = rs
-		} else {
+		if r.rs == nil {
 			return nil, fmt.Errorf("indexed reader requires a seekable reader")
 		}
 		startPos, err := r.rs.Seek(0, io.SeekCurrent)
@@ -318,8 +316,13 @@ func NewReader(r io.Reader) (*Reader, error) {
 	}
 	dataStart := int64(-1)
 	if rs != nil {
+		// a source that has a Seek method but cannot tell its position (a pipe opened as
+		// *os.File, a failing device) is a stream: it is read once, from where it stands, and
+		// nothing repositions it - a later call could not find the start of the data again.
 		if pos, err := rs.Seek(0, io.SeekCurrent); err == nil {
 			dataStart = pos
+		} else {
+			rs = nil
 		}
 	}
 	return &Reader{
